@@ -61,12 +61,15 @@ CHUNK = 3                   # chunk_size of the range route: the copy loop runs 
 # ----------------------------------------------------------------------------------------------
 # known findings
 
-def _sig_loop_escape(case, params):
-    """Sandbox-mode escape (file or listing) on a request whose realpath resolution gave up at a symlink loop."""
-    return (case.get("suite") == "traversal" and not case.get("follow") and case.get("realpath_gave_up_at_loop") is True)
+def _sig_sibling_escape(case, params):
+    """Sandbox-mode escape through the PRE-COMPRESSED SIBLING (a Content-Encoding was served) on a request whose
+    realpath resolution gave up at a symlink loop.  A plain-file or listing escape after a loop (the defect repaired
+    by 706b3e0) does not match and is reported as new."""
+    return (case.get("suite") == "traversal" and not case.get("follow") and case.get("realpath_gave_up_at_loop") is True
+            and case.get("served_encoding") is not None)
 
 
-SIGNATURES: dict = {"sandbox_escape_after_symlink_loop": _sig_loop_escape}
+SIGNATURES: dict = {"sandbox_sibling_escape_after_symlink_loop": _sig_sibling_escape}
 
 
 def build_model():
@@ -159,7 +162,7 @@ class Bed:
                     "outside/f.txt", "outside/k.txt"):
             named(rel)
         for rel in ("root/f.txt.gz", "root/k.txt.br", "root/noext.gz", "root/.hidden.gz", "root/trail..gz", "outside/secret.txt.gz",
-                    "outside/k.txt.br"):
+                    "outside/k.txt.br", "outside/brk.gz", "root/sub/brk_in.gz"):
             named(rel, "ENC")
         os.mkdir(os.path.join(b, "root/sub/deep/h.txt.gz"))                      # sibling that is a directory
         os.symlink("../../outside/secret.txt", os.path.join(b, "root/sub/g.txt.gz"))   # sibling that is a link out
@@ -174,6 +177,9 @@ class Bed:
             "root/link_dev": "/dev/null", "root/link_abs_in": os.path.join(b, "root/sub/deep"),
             "root/link_slashes": "//" + os.path.join(b, "outside").lstrip("/") + "//secret.txt",
             "outside/back_in": "../root/f.txt", "root/link_k_out": "../outside/k.txt",
+            # a link that sends realpath back to itself AFTER a missing component: stat() says ENOENT, not ELOOP
+            "outside/brk": "nonexistent2/../brk/../../root/link_out_dir/brk",
+            "root/sub/brk_in": "nonexistent2/../brk_in/../../sub/brk_in",
         }
         for rel, tgt in links.items():
             os.symlink(tgt, os.path.join(b, rel))
@@ -697,7 +703,7 @@ def suite_range_response(ctx, exe, bed):
 NAMES = ["f.txt", "sub", "g.txt", "deep", "h.txt", "a%20b.txt", "%C3%A9.txt", "k.txt", "noext", ".hidden", "trail.", "emptydir", "f2.txt",
          "link_in", "link_dir_in", "link_out_file", "link_out_abs", "link_out_dir", "link_up", "link_self_dir", "loop1", "selfloop",
          "dangling", "chain1", "link_root2", "up_out", "link_back", "link_dev", "link_abs_in", "link_slashes", "link_k_out", "sock",
-         "nonexistent", "secret.txt", "outside", "root", "root2", "z.txt", "sub2", "x.txt", "f.txt.gz", "back_in"]
+         "nonexistent", "brk", "brk_in", "secret.txt", "outside", "root", "root2", "z.txt", "sub2", "x.txt", "f.txt.gz", "back_in"]
 DOTS = ["..", ".", "%2e%2e", "%2E%2E", ".%2e", "%2e.", "%2e", "...", "..%00", "%00", "..;", "..\\", "%5c..", "..%5c", "%252e%252e", "%c0%ae%c0%ae",
         "..%252f", "%2e%2e%2f", "..%2f", "..%2F..", "%2f", "%2F", "%5c", "\\", "\\..\\", "C:", "c:%5c", "%20", "~", "*", "%", "%zz", "%25", "%252F"]
 SEPS = ["/", "/", "/", "//", "%2F", "%2f", "/./", "\\", "%5C", "///"]
@@ -723,7 +729,8 @@ def gen_targets(bed, rng, n):
              "/\\\\host\\share", "/..\\outside\\secret.txt", "/..%5Coutside%5Csecret.txt", "/f.txt%00", "/f.txt%00.gz", "/%00", "/sub%00/../f.txt",
              "/x%00/../f.txt", "/%252e%252e/outside/secret.txt", "/..%252Foutside/secret.txt", "/%25", "/%", "/%zz", "/sub//g.txt", "/sub/./g.txt",
              "///f.txt", "/sub///deep//h.txt", "/f.txt?x=1", "/sub/g.txt?../../outside/secret.txt", "/link_up", "/link_up/", "/link_up/root",
-             "/link_up/root2/z.txt", "/sub/deep/h.txt.gz", "/sub/deep/h.txt.gz/", "/link_root2", "/link_root2/", "/outside/back_in"]
+             "/link_up/root2/z.txt", "/sub/deep/h.txt.gz", "/sub/deep/h.txt.gz/", "/link_root2", "/link_root2/", "/outside/back_in",
+             "/link_out_dir/brk", "/link_out_dir/brk.gz", "/sub/brk_in", "/link_dir_in/brk_in", "/loop1/../link_out_dir/brk"]
     for (follow, show), prefix in PREFIXES.items():
         for t in fixed:
             out.append((follow, show, prefix + t))
@@ -732,7 +739,8 @@ def gen_targets(bed, rng, n):
                 (follow, show, f"/{prefix}/f.txt"), (follow, show, f"{prefix}x/f.txt"), (follow, show, f"{prefix}/..{prefix}/sub/g.txt"),
                 (follow, show, f"{prefix}%2Ff.txt"), (follow, show, f"{prefix}/sub/../../{prefix[1:]}/f.txt"), (follow, show, f"/x/../..{prefix}/f.txt")]
     # every name, stepped back over with "..", then every way out (dot-dot after links, loops, files, missing names)
-    outs = ["link_out_file", "link_out_dir/secret.txt", "link_out_dir", "link_up/outside/secret.txt", "f.txt", "link_out_abs", "link_k_out"]
+    outs = ["link_out_file", "link_out_dir/secret.txt", "link_out_dir", "link_up/outside/secret.txt", "f.txt", "link_out_abs", "link_k_out",
+            "link_out_dir/brk"]
     for (follow, show), prefix in PREFIXES.items():
         for x in NAMES:
             for y in outs:
@@ -864,7 +872,7 @@ def suite_traversal(ctx, exe, bed):
     for i, (follow, show, t) in enumerate(targets):
         accept = rng.choice(ACCEPTS) if i % 3 else None
         cases.append((follow, show, t, accept))
-        if i < 600 and any(x in t for x in ("f.txt", "k.txt", "g.txt", "h.txt", "noext", ".hidden", "trail.", "secret", "link_k_out", "f2.txt")):
+        if "brk" in t or (i < 600 and any(x in t for x in ("f.txt", "k.txt", "g.txt", "h.txt", "noext", ".hidden", "trail.", "secret", "link_k_out", "f2.txt"))):
             cases.append((follow, show, t, "gzip, br"))
     impl = []
     for follow, show, t, accept in cases:
@@ -887,7 +895,8 @@ def suite_traversal(ctx, exe, bed):
     ran = 0
     for (follow, show, t, accept), (obs, ps), m in zip(cases, impl, models):
         case = {"suite": "traversal", "follow": follow, "show_index": show, "target": t, "accept_encoding": accept,
-                "realpath_gave_up_at_loop": realpath_gave_up(bed, follow, show, ps)}
+                "realpath_gave_up_at_loop": realpath_gave_up(bed, follow, show, ps),
+                "served_encoding": obs[1] if obs[0] == "FILE" else None}
         if obs[0] == "EXC":
             ctx.violation(case, f"static route did not answer: {obs[1]}")
             continue
@@ -1005,7 +1014,8 @@ def _replay_on(bed, exe, case):
     if suite == "traversal":
         obs, model, ps = run_traversal_case(bed, exe, case["follow"], case["show_index"], case["target"], case.get("accept_encoding"))
         bad = oracle_traversal(bed, case["follow"], case["show_index"], case["target"], obs)
-        case = dict(case, realpath_gave_up_at_loop=realpath_gave_up(bed, case["follow"], case["show_index"], ps))
+        case = dict(case, realpath_gave_up_at_loop=realpath_gave_up(bed, case["follow"], case["show_index"], ps),
+                    served_encoding=obs[1] if obs[0] == "FILE" else None)
         return {"impl": repr(obs), "model": None if model is None else repr(model), "path_safe": ps, "violates": bool(bad), "why": bad,
                 "case": case}
     return {"violates": None, "note": f"suite {suite!r} is replayed from the seed"}
